@@ -21,12 +21,25 @@ def scenarios(rng, tier):
             kw.update(wifi=rng.choice([0, 1, 2, 3, 255]), bssid=bytes(rng.randrange(256) for _ in range(6)), ssid=bytes(rng.randrange(1, 256) for _ in range(k % 41)),
                       rate=rng.choice([0, 1, 0xFF, 0x100, 108, 0xFFFF, rng.randrange(65536)]), rssi=rng.choice([-128, -127, -70, -1, 0, 1, 127]))
             if rng.random() < 0.5: kw['phy'] = rng.choice([1, 2, 7])
-        fails = [f for f in ('iftypefail', 'ipv4fail', 'ipv6fail', 'speedfail', 'bssidfail', 'ratefail', 'rssifail', 'macfail') if rng.random() < (0.15 if k % 3 == 0 else 0.0)]
+        fails = [f for f in ('iftypefail', 'ipv4fail', 'ipv6fail', 'speedfail', 'bssidfail', 'ratefail', 'rssifail', 'macfail') if rng.random() < (0.15 if k % 3 == 0 else 0.25 if k % 4 == 2 else 0.0)]
         for f in fails: kw[f] = 1
         cfg = Cfg(0, **kw)
         s.start('attr_%d' % k); s.lines.append(cfg.line())
         s.lines.append(gline(host=bytes(rng.randrange(1, 256) for _ in range((k * 7) % 41)), retfull=rng.randrange(2)))
         s.frame(0, discover(mac(1), tos=rng.choice([0, 1]), gen=rng.randrange(65536)))
+        if k % 4 == 1:
+            # earlier traffic must leave no trace in a later Hello: observations, a QueryResp with several descriptors, large-TLV
+            # responses, then another Discover (same session, no Reset)
+            own_ = bytes(6) if 'macfail' in fails else kw['mac']
+            for i in range(rng.choice([2, 3, 8])): s.frame(0, probe(bytes([0x7e, 0x29, 0x5e, 0x11, i, 0xfe]), own_, bytes([0x6a, 0xff, 0x29, 0x5e, i, 1]), own_))
+            s.frame(0, query(mac(1), own_, seq=4)); s.frame(0, qlt(mac(1), own_, 17, 0, seq=5))
+            s.frame(0, discover(mac(1), tos=rng.choice([0, 1]), gen=rng.randrange(65536)))
+        if k % 4 == 2:
+            # getters that fail at first and then recover (and the other way round) within one session
+            kw3 = dict(kw)
+            for f in ('iftypefail', 'ipv4fail', 'ipv6fail', 'speedfail', 'bssidfail', 'ratefail', 'rssifail', 'macfail'): kw3[f] = 0 if kw.get(f) else (1 if rng.random() < 0.3 else 0)
+            s.lines.append(Cfg(0, **kw3).line())
+            s.frame(0, discover(mac(1), tos=rng.choice([0, 1]), gen=rng.randrange(65536)))
         if k % 4 == 0:
             # the attributes change while the session goes on: the next Hello must carry the current ones
             kw2 = dict(kw); kw2.update(ipv4=rng.randrange(2 ** 32), speed=rng.choice(B32), flags=rng.randrange(65536), ipv6=bytes(rng.randrange(256) for _ in range(16)))
@@ -52,6 +65,8 @@ def oracle(name, ib, mb, meta):
         if b.op.startswith('cfg 0'): kv = dict(t.split('=', 1) for t in b.op.split()[2:])
         elif b.op.startswith('cfg g'): g = dict(t.split('=', 1) for t in b.op.split()[2:])
         if not b.op.startswith('frame') or b.fault: continue
+        dd = frame_hdr(b)
+        if not (dd and dd['tos'] in (0, 1) and dd['opc'] == 0): continue      # other traffic of the session: not a Hello
         sn = sends_of(b)
         if len(sn) != 1: fails.append((i, 'Discover answered by %d frames' % len(sn))); continue
         h = hello_fields(sn[0][2])
@@ -92,6 +107,8 @@ def count(name, lines, ib, stats, meta):
     for b in ib:
         if b.op.startswith('cfg 0'): kv = dict(t.split('=', 1) for t in b.op.split()[2:])
         if b.op.startswith('frame'):
+            dd = frame_hdr(b)
+            if not (dd and dd['opc'] == 0): continue
             stats['evaluations'] += 1
             sn = sends_of(b); h = hello_fields(sn[0][2]) if sn else None
             if h and h['props'] is not None:
@@ -128,4 +145,20 @@ def extra_checks(tier, seed):
         elif {k: bm.kv.get(k) for k in want} != want:
             fails.append('the model of the Linux getters differs from the implementation on "%s": %s' % (bi.op, {k: bm.kv.get(k) for k in want}))
         if len(fails) > 5: break
-    return {'failures': fails, 'evaluations': n, 'distinct': len(distinct), 'samples': [{'linux': L[1], 'getters': ci[0].status if ci else None}], 'linux_tuples': n}
+    # exhaustive: all 2^32 values of every copied / converted field through the real getters (16 processes, plain -O2 build)
+    import subprocess
+    sweep = os.path.join(V.BUILD, 'linuxsweep')
+    rc, out = V.sh(['gcc', '-O2', '-w', '-I' + os.path.join(V.REPO, 'lltdResponder'), '-I' + os.path.join(V.REPO, 'os/linux'), '-o', sweep,
+                    os.path.join(V.VERIF, 'harness/linuxport_main.c'), os.path.join(V.REPO, 'os/linux/lltd_port.c')])
+    swept = 0
+    if rc != 0: fails.append('the Linux platform layer does not compile into the sweep harness: ' + out[-300:])
+    else:
+        ps = [subprocess.Popen([sweep, '--sweep', str(c), '16'], stdout=subprocess.PIPE, stderr=subprocess.STDOUT, text=True) for c in range(16)]
+        for pr in ps:
+            o, _ = pr.communicate(timeout=1200)
+            for l in o.split('\n'):
+                if l.startswith('BAD') and len(fails) < 6: fails.append('Linux platform layer distorts the interface record: ' + l[4:])
+            if 'sweep:' in o: swept += 1
+        if swept != 16: fails.append('exhaustive sweep of the Linux getters did not complete (%d of 16 parts)' % swept)
+    return {'failures': fails, 'evaluations': n + 5 * 2 ** 32, 'distinct': len(distinct) + 2 ** 32, 'exhaustive': True, 'samples': [{'linux': L[1], 'getters': ci[0].status if ci else None}], 'linux_tuples': n,
+            'linux_exhaustive': 'LinkSpeed, MediumType, flags, MTU, ifType: all 2^32 values each'}
